@@ -91,6 +91,16 @@ def tags(t):
 def run(ctx, prop, relevant):
     q = ctx.quick
     mc = tlc_mc(ctx, "NodePool_mc", "NodePool_mc.cfg" if q else "NodePool_mc_thorough.cfg", timeout=3000, coverage=not q)
+    # the pool's design at critical-section grain: every interleaving of its goroutines for 2 (quick) / 3 (thorough) requests
+    design = tlc_mc(ctx, "PoolDesign", "PoolDesign.cfg" if q else "PoolDesign_thorough.cfg", timeout=3000)
+    design_neg = {}
+    if not q:
+        # non-vacuity of the design invariants: with one repair switched off TLC must find the corresponding defect
+        for sw in ("Collector", "Pinned", "Keep", "Dangling"):
+            r = tlc(ctx, "PoolDesign", cfg="PoolDesign_no%s.cfg" % sw, timeout=1200, workers=8)
+            design_neg[sw] = r.inv_violated
+            if not r.inv_violated:
+                raise MachineryError("PoolDesign with Fix%s=FALSE did not violate any invariant (vacuous model?)" % sw)
     scen = tc.simulate(ctx, "NodePool_mc", "NodePool_gen.cfg", num=24 if q else 300, depth=60)
     bins = go_build_tests(ctx, [PKG])
     traces = run_harness(ctx, bins[PKG], 16, {"VERIF_SCEN": scen, "VERIF_RANDOM": "24" if q else "300"})
@@ -98,14 +108,15 @@ def run(ctx, prop, relevant):
     for k, line in rej:
         t = traces[k]
         bad = t[line - 1] if line - 1 < len(t) else {}
-        add_violation(ctx, classify(prop, bad, t, line), dict(failing_line=line, event=bad, reset=t[0], trace=t[max(1, line - 25):line + 1]),
+        add_violation(ctx, classify(prop, bad, t, line), dict(failing_line=line, event=bad, reset=t[0], trace=t[max(1, line - 400):line + 1]),
                       what="line %d %s" % (line, json.dumps({k: v for k, v in bad.items() if k not in ('seq', 'st', 'cloud')})[:300]))
     tagc = {}
     for t in traces:
         for g in tags(t):
             tagc[g] = tagc.get(g, 0) + 1
     nt = len({h(strip(t)) for t in traces if tags(t) & relevant})
-    cov = dict(states=mc.distinct, transitions=mc.generated, traces_validated_against_impl=len(traces), evaluations=len(traces),
+    cov = dict(states=mc.distinct + design.distinct, transitions=mc.generated + design.generated, design_model_states=design.distinct,
+               design_defect_reproduction=design_neg, traces_validated_against_impl=len(traces), evaluations=len(traces),
                distinct_nontrivial=nt, events=sum(len(t) for t in traces), trace_tags=tagc,
                rule="scenarios = TLC simulation of NodePool_mc.tla projected on the driver alphabet (alloc/release/cancel/balancer/"
                     "sync/remote removal/fault plan) + seeded random scenarios over 2-3 slots, cap 2-3, batch 1-3, min/max idle, "
